@@ -18,13 +18,16 @@
 (*               geometry containing the data's (or on a class that has nothing to check)                      *)
 EXTENDS Norm
 CONSTANTS MaxOps,      \* bound on the number of apply/undo calls in a history
-          Depth        \* 1: single classes, 2: chains of two, 3: chains of three members
-VARIABLES obj, G, su, data, cnt, wild, lastErr, nops
+          Depth,       \* 1: single classes, 2: chains of two, 3: chains of three members
+          NViews,       \* 1 or 2 views (2: the groupings that relate views are explored too)
+          TangBelow    \* tangential positions -TangBelow..0
+VARIABLES obj, G, su, data, cnt, wild, lastErr, nops,
+          effT         \* memoised abstract efficiency of the state's object, bin by bin
 
-vars == <<obj, G, su, data, cnt, wild, lastErr, nops>>
+vars == <<obj, G, su, data, cnt, wild, lastErr, nops, effT>>
 
-GTof == [scanner |-> "mc", N |-> 4, R |-> 2, tofMash |-> 1, views |-> 2, minSeg |-> -1, maxSeg |-> 1, ax |-> <<1, 2, 1>>,
-         minTang |-> -1, maxTang |-> 0, minTof |-> -1, maxTof |-> 1]
+GTof == [scanner |-> "mc", N |-> 4, R |-> 2, tofMash |-> 1, views |-> NViews, minSeg |-> -1, maxSeg |-> 1, ax |-> <<1, 2, 1>>,
+         minTang |-> -TangBelow, maxTang |-> 0, minTof |-> -1, maxTof |-> 1]
 GNon == NonTofClone(GTof)
 Small(g) == [g EXCEPT !.minSeg = 0, !.maxSeg = 0, !.ax = <<2>>]
 
@@ -34,9 +37,9 @@ Table(g, f(_)) == [s \in 1..(g.maxSeg - g.minSeg + 1) |-> [v \in 1..g.views |-> 
 
 \* the leaf objects
 ObjT == [cls |-> "Trivial"]
-ObjP0 == LET f(b) == b.view + 2 * b.tang - b.seg + b.ax IN [cls |-> "PD", g |-> GNon, tab |-> Table(GNon, f)]          \* non-TOF factors
+ObjP0 == LET f(b) == b.view + 2 * b.tang - b.seg + b.ax + 1 IN [cls |-> "PD", g |-> GNon, tab |-> Table(GNon, f)]          \* non-TOF factors
 ObjP1 == LET f(b) == b.tof + b.ax - b.view IN [cls |-> "PD", g |-> GTof, tab |-> Table(GTof, f)]                       \* TOF factors
-ObjC(g) == LET f(b) == IF b.seg = 0 /\ b.view = 1 /\ b.ax = 1 /\ b.tang = 0 /\ b.tof = g.maxTof THEN ZERO ELSE b.tof - b.view + b.seg
+ObjC(g) == LET f(b) == IF b.seg = 0 /\ b.view = 0 /\ b.ax = 1 /\ b.tang = 0 /\ b.tof = g.maxTof THEN ZERO ELSE b.tof - b.view + b.seg
            IN [cls |-> "Cal", g |-> g, tab |-> Table(g, f), calib |-> 1, br |-> -1]
 ObjK == [cls |-> "Comp", g |-> GNon, apb |-> 1, tpb |-> 2, hasEff |-> TRUE, hasGeo |-> TRUE, hasBlk |-> TRUE,
          eff |-> << <<0, 1, -1, 2>>, <<1, 0, 0, -2>> >>, geo |-> 1,
@@ -50,17 +53,19 @@ Chain3(g) == { [cls |-> "Chain", first |-> x, second |-> y] : x \in {ObjT, ObjP0
 Objects(g) == Leaves(g) \cup (IF Depth >= 2 THEN Chain2(g) ELSE {}) \cup (IF Depth >= 3 THEN Chain3(g) ELSE {})
 
 \* original data: distinct exponents, one zero datum
-Data0(g) == [b \in BinsOf(g) |-> IF b.seg = -1 /\ b.view = 0 /\ b.tang = -1 /\ b.tof = g.minTof THEN ZERO
-                                 ELSE 3 * b.seg + b.view - 2 * b.tang + b.tof + b.ax]
+D0(g, b) == IF b.seg = -1 /\ b.view = 0 /\ b.tang = 0 /\ b.tof = g.minTof THEN ZERO ELSE 3 * b.seg + b.view - 2 * b.tang + b.tof + b.ax
+Data0(g) == [b \in BinsOf(g) |-> D0(g, b)]
 
 \* symmetry groupings of the (segment, view) pairs of the tiny system: sequences of sets of related viewgrams
 \* (each a sequence of <<segment, view>>, the basic one first)
-GrTrivial == << << <<-1, 0>> >>, << <<-1, 1>> >>, << <<0, 0>> >>, << <<0, 1>> >>, << <<1, 0>> >>, << <<1, 1>> >> >>
-GrSeg == << << <<0, 0>> >>, << <<0, 1>> >>, << <<1, 0>>, <<-1, 0>> >>, << <<1, 1>>, <<-1, 1>> >> >>             \* swap segment
+GrTrivial == IF NViews = 2 THEN << << <<-1, 0>> >>, << <<-1, 1>> >>, << <<0, 0>> >>, << <<0, 1>> >>, << <<1, 0>> >>, << <<1, 1>> >> >>
+             ELSE << << <<-1, 0>> >>, << <<0, 0>> >>, << <<1, 0>> >> >>
+GrSeg == IF NViews = 2 THEN << << <<0, 0>> >>, << <<0, 1>> >>, << <<1, 0>>, <<-1, 0>> >>, << <<1, 1>>, <<-1, 1>> >> >>             \* swap segment
+         ELSE << << <<0, 0>> >>, << <<1, 0>>, <<-1, 0>> >> >>
 GrView == << << <<-1, 0>>, <<-1, 1>> >>, << <<0, 0>>, <<0, 1>> >>, << <<1, 0>>, <<1, 1>> >> >>                    \* mirror views
 GrAll == << << <<0, 0>>, <<0, 1>> >>, << <<1, 0>>, <<-1, 0>>, <<1, 1>>, <<-1, 1>> >> >>                           \* both
-Groupings == {GrTrivial, GrSeg, GrView, GrAll}
-GrSmall == << << <<0, 0>> >>, << <<0, 1>> >> >>                                                                  \* data with segment 0 only
+Groupings == IF NViews = 2 THEN {GrTrivial, GrSeg, GrView, GrAll} ELSE {GrTrivial, GrSeg}
+GrSmall == IF NViews = 2 THEN << << <<0, 0>> >>, << <<0, 1>> >> >> ELSE << << <<0, 0>> >> >>                        \* data with segment 0 only
 
 Extract(d, g, vg) == [i \in 1..Len(vg) |-> [a \in 1..NumAxOf(g, vg[i][1]) |-> [t \in 1..(g.maxTang - g.minTang + 1) |-> d[ElemBin(g, vg, i, a, t)]]]]
 Store(d, g, vg, out) == [b \in DOMAIN d |->
@@ -77,7 +82,7 @@ WholeImpl(o, op, g, d, grouping, i, k) ==
   ELSE IF k > g.maxTof THEN WholeImpl(o, op, g, d, grouping, i + 1, g.minTof)
   ELSE WholeImpl(o, op, g, OneSet(o, op, g, d, WithTof(grouping[i], k)), grouping, i, k + 1)
 
-ZeroEffBins == { b \in BinsOf(G) : Eff(obj, b) = ZERO }
+ZeroEffBins == { b \in BinsOf(G) : effT[b] = ZERO }
 Touched(vgset) == { b \in BinsOf(G) : \E i \in 1..Len(vgset) : vgset[i] = <<b.seg, b.view, b.tof>> }
 Bump(c, S, op) == [b \in DOMAIN c |-> IF b \in S THEN (IF op = "undo" THEN c[b] + 1 ELSE c[b] - 1) ELSE c[b]]
 
@@ -89,10 +94,11 @@ Init == /\ G \in {GTof, GNon}
         /\ wild = {}
         /\ lastErr = "none"
         /\ nops = 0
+        /\ effT = [b \in BinsOf(G) |-> Eff(obj, b)]
 
 DoSetUp(g) == /\ su' = IF SetUpMustSucceed(obj, g) THEN SetUpWith(g) ELSE SetUpFailed
               /\ lastErr' = "none"
-              /\ UNCHANGED <<obj, G, data, cnt, wild, nops>>
+              /\ UNCHANGED <<obj, G, data, cnt, wild, nops, effT>>
 
 \* a call on one set of related viewgrams of the data
 DoRelated(op, grouping, i, k) ==
@@ -106,7 +112,7 @@ DoRelated(op, grouping, i, k) ==
           /\ data' = OneSet(obj, op, G, data, vg)
           /\ cnt' = Bump(cnt, Touched(vg), op)
           /\ wild' = wild \cup (IF op = "apply" THEN Touched(vg) \cap ZeroEffBins ELSE {})
-  /\ UNCHANGED <<obj, G, su>>
+  /\ UNCHANGED <<obj, G, su, effT>>
 
 \* a call on data with FEWER segments than the data the object was set up for: it passes the geometry check; the
 \* classes may still refuse it (then nothing changes), otherwise the result must be right
@@ -121,7 +127,7 @@ DoRelatedSmall(op, i, k, refuse) ==
           /\ data' = OneSet(obj, op, Small(G), data, vg)
           /\ cnt' = Bump(cnt, Touched(vg), op)
           /\ wild' = wild \cup (IF op = "apply" THEN Touched(vg) \cap ZeroEffBins ELSE {})
-  /\ UNCHANGED <<obj, G, su>>
+  /\ UNCHANGED <<obj, G, su, effT>>
 
 \* a call on the whole data set, any grouping
 DoWhole(op, grouping) ==
@@ -134,13 +140,14 @@ DoWhole(op, grouping) ==
           /\ data' = WholeImpl(obj, op, G, data, grouping, 1, G.minTof)
           /\ cnt' = Bump(cnt, BinsOf(G), op)
           /\ wild' = wild \cup (IF op = "apply" THEN ZeroEffBins ELSE {})
-  /\ UNCHANGED <<obj, G, su>>
+  /\ UNCHANGED <<obj, G, su, effT>>
 
 \* the calibrated class: a new calibration factor clears the set-up flag
 \* (the efficiency changes with it, so the model allows it only before the first call of the history)
 DoSetCalib == /\ obj.cls = "Cal" /\ obj.calib = 1 /\ nops = 0
               /\ obj' = [obj EXCEPT !.calib = 2]
               /\ su' = NotSetUp /\ lastErr' = "none"
+              /\ effT' = [b \in BinsOf(G) |-> Eff(obj', b)]
               /\ UNCHANGED <<G, data, cnt, wild, nops>>
 
 Next == \/ \E g \in {G, Small(G)} : DoSetUp(g)
@@ -155,15 +162,17 @@ Spec == Init /\ [][Next]_vars
 RECURSIVE Pow(_, _, _)
 Pow(d, n, e) == IF n = 0 THEN d ELSE IF n > 0 THEN Pow(MulV(d, e), n - 1, e) ELSE Pow(DivV(d, e), n + 1, e)
 InvFactor == \A b \in BinsOf(G) :
-               LET e == Eff(obj, b) IN
+               LET e == effT[b] IN
                IF e = ZERO
-               THEN (b \in wild) \/ data[b] \in {Data0(G)[b], ZERO}          \* nothing is promised after a division by zero
-               ELSE data[b] = Pow(Data0(G)[b], cnt[b], e)
-InvTrivialMC == (AllOne(obj) \/ \A b \in BinsOf(G) : Eff(obj, b) = 0) => data = Data0(G)
-InvReportsTrivial == (obj.cls \in {"Trivial", "Comp"} /\ TrivialAnswerOk(obj, TRUE)) => \A b \in BinsOf(G) : Eff(obj, b) = 0
-InvTof == (obj.cls = "PD" /\ ~IsTof(obj.g)) => \A b \in BinsOf(G) : Eff(obj, b) = Eff(obj, [b EXCEPT !.tof = 0])
+               THEN (b \in wild) \/ data[b] \in {D0(G, b), ZERO}          \* nothing is promised after a division by zero
+               ELSE data[b] = Pow(D0(G, b), cnt[b], e)
+InvTrivialMC == (AllOne(obj) \/ \A b \in BinsOf(G) : effT[b] = 0) => \A b \in BinsOf(G) : data[b] = D0(G, b)
+\* theorems about the efficiency of the state's object (evaluated when the object or its calibration is new)
+Fresh == nops = 0 /\ su.st = "none"
+InvReportsTrivial == (Fresh /\ obj.cls \in {"Trivial", "Comp"} /\ TrivialAnswerOk(obj, TRUE)) => \A b \in BinsOf(G) : effT[b] = 0
+InvTof == (Fresh /\ obj.cls = "PD" /\ ~IsTof(obj.g)) => \A b \in BinsOf(G) : effT[b] = Eff(obj, [b EXCEPT !.tof = 0])
 InvSetUp == /\ (lastErr = "ok" /\ ChecksOnViewgrams(obj)) => (su.st = "ok" /\ Geq(su.g, G))
             /\ (lastErr = "oksmall" /\ ChecksOnViewgrams(obj)) => (su.st = "ok" /\ Geq(su.g, Small(G)))
 \* "a chain has the product of its members' efficiencies" - stated explicitly for the state's object
-InvChain == obj.cls = "Chain" => \A b \in BinsOf(G) : Eff(obj, b) = MulV(Eff(obj.first, b), Eff(obj.second, b))
+InvChain == (Fresh /\ obj.cls = "Chain") => \A b \in BinsOf(G) : effT[b] = MulV(Eff(obj.first, b), Eff(obj.second, b))
 =============================================================================
